@@ -118,6 +118,12 @@ func backupEngine() {
 					_ = os.WriteFile(copyPath, w.buf.Bytes(), 0o600)
 				}
 			} else {
+				// the destination may already exist and be LARGER than the snapshot (an older backup at
+				// the same path): the copy must replace it, not be written over its beginning
+				if rng.Intn(2) == 0 {
+					_ = os.WriteFile(copyPath, bytes.Repeat([]byte{0xA5}, int(size)+3*o.PageSize+17), 0o600)
+					rp["destination_preexists_larger"] = true
+				}
 				err = rtx.CopyFile(copyPath, 0o600)
 				if fi, e2 := os.Stat(copyPath); e2 == nil {
 					n = fi.Size()
